@@ -201,6 +201,7 @@ def run_case(c, F, femio):
         mats = []
         for spec in c['mats']:
             shape = tuple(spec.get('shape', c['shape']))
+            ddt = DTYPES[spec.get('data_dtype', 'float64')]
             rows = [e[0] for e in spec['entries']]
             cols = [e[1] for e in spec['entries']]
             vals = [fl(e[2]) for e in spec['entries']]
@@ -218,11 +219,11 @@ def run_case(c, F, femio):
                 for t in order:
                     counts[rows[t] + 1] += 1
                 indptr = np.cumsum(counts)
-                m = sp.csr_matrix((np.array([vals[t] for t in order], dtype=float),
+                m = sp.csr_matrix((np.array([vals[t] for t in order], dtype=float).astype(ddt),
                                    np.array([cols[t] for t in order], dtype=idt),
                                    indptr.astype(idt)), shape=shape)
             else:
-                m = sp.coo_matrix((np.array(vals, dtype=float), (np.array(rows, dtype=idt),
+                m = sp.coo_matrix((np.array(vals, dtype=float).astype(ddt), (np.array(rows, dtype=idt),
                                                                   np.array(cols, dtype=idt))),
                                   shape=shape)
             mats.append(m)
@@ -249,7 +250,7 @@ def run_case(c, F, femio):
             for p in range(len(o.data)):            # storage order of the returned CSR
                 ent.append([int(row_of[p]), int(o.indices[p]), ex(o.data[p])])
             res.append({'format': fmt_returned, 'shape': [int(x) for x in o.shape], 'entries': ent,
-                        'index_dtype': str(o.indices.dtype),
+                        'index_dtype': str(o.indices.dtype), 'data_dtype': str(o.data.dtype),
                         'same_structure_as_first': bool(
                             np.array_equal(o.indices, out[0].indices) and
                             np.array_equal(o.indptr, out[0].indptr))})
